@@ -217,21 +217,26 @@ def errmap_case():
 
 class C13(Spec):
     id = 'C13'; engine = 'thr'; harness = 'h_thr'; driver = 'drv_thr'
-    generators = ('Exn',)
+    generators = ('Exn', 'Thr')
     harness_flags = ('-Wl,--wrap=pthread_mutex_lock', '-Wl,--wrap=pthread_mutex_trylock', '-Wl,--wrap=pthread_mutex_unlock',
                      '-Wl,--wrap=pthread_join', '-Wl,--wrap=malloc', '-Wl,--wrap=calloc')
-    harness_timeout = 100
+    harness_timeout = 90
     technique = ('Lean 4 proofs by induction over arbitrary schedules of a model of the thread bookkeeping (per-thread components reached only '
                  'through current(Thread), holder machine for Mutex, join enabled after the epilogue); model tied to the code by replaying scripted '
                  'interleavings on real Cello threads event by event, and by free-running 2-16 real threads under schedule noise with a direct oracle')
-    level_text = ('Theorems over ALL schedules (any number of threads, any interleaving, any per-thread programs): C13_noninterference - each thread\'s final '
-                  'component (collector registry, exception record, thread-local table, ledger of finalised objects) and every output of its local operations '
-                  'equal those of the thread running alone on its projection of the schedule, whatever the shared class cache contains; C13_frame - a step of one '
-                  'thread changes no other thread\'s component; C13_mutex - in every UB-free schedule at most one thread is inside sections of one Mutex '
-                  '(lock/unlock, trylock, with); C13_counter_exact - increments made inside sections are never lost; C13_join - every step of t precedes the return '
-                  'of join t, and the joiner reads t\'s last published value; C13_teardown_own - a collector (del, collection, thread teardown) only finalises '
-                  'objects its own thread allocated. The model is tied to /repo by executing scripted interleavings on real Cello threads with a baton and comparing '
-                  'every event outcome, and free-running real threads with noise comparing all local outcomes plus digest-vs-solo, ledger, in-section, counter and join oracles.')
+    level_text = ('Theorems over ALL schedules (any number of threads, any interleaving, any per-thread programs; a schedule is any list of (thread, event)): '
+                  'C13_noninterference / C13_schedule_independent - each thread\'s final component (collector registry, exception record, thread-local table, ledger of '
+                  'finalised objects) and every outcome of its local operations equal those of the thread running alone on its projection of the execution, whatever the '
+                  'others do and whatever the shared class cache contains (C13_cache_transparent); C13_frame - a step of one thread changes no other thread\'s component; '
+                  'C13_exn_isolated - an exception program of one thread yields the structured-exception trace of C07 and touches no other thread; C13_mutex / C13_with_exclusive - '
+                  'at every point of every UB-free schedule at most one thread is inside sections of one Mutex (lock/unlock, trylock, with) and it is the holder; '
+                  'C13_counter_exact - non-atomic increments made inside sections are never lost; C13_join / C13_join_publishes - every step of t precedes the return of '
+                  'join t and every later read yields t\'s final published value (= its solo value); C13_teardown_own / C13_teardown_step / C13_foreign_del - a collector (del, '
+                  'collection, the teardown in Thread_Init_Run) only ever finalises objects its own thread allocated. C13_source_shape_as_modelled and '
+                  'C13_error_translation_current_source re-check on every run that the 27 source fragments the model mirrors (Thread_Current, GC_Current, Exception_Current, '
+                  'Thread_Init_Run, GC_New/Del, alloc_by/del_by, start_in/stop_in/with, Mutex_*, Thread_Join, the cache macro) and the pthread error translation are the text '
+                  'the model was written against. The model is tied to /repo by executing scripted interleavings on real Cello threads (baton) comparing every event outcome, '
+                  'and by free-running 2-16 real threads under schedule noise comparing all local outcomes plus digest-vs-solo, ledger, in-section, counter and join oracles.')
     level_note = ('PARTIAL by nature: the theorems are about the bookkeeping (per-thread state is reached only through current(Thread); Mutex = holder machine; join after '
                   'the epilogue) in a sequentially consistent model at operation granularity. Not exhibited by the model and covered only by running: real data races '
                   'and memory-model effects, the pthread implementation, signals, the conservative stack scan (a collection is modelled with an arbitrary marked set). '
@@ -243,7 +248,7 @@ class C13(Spec):
             '(container-, allocation-, exception-, TLS-heavy) are compared with their solo digests. non-trivial = at least two threads ran and the case contains a contended '
             'lock/trylock (sched), a collection or teardown that finalised objects, or an exception handler; distinct = distinct op-file text.')
     trusted_base = ('harness/h_thr.c + lean/Driver/Thr.lean (correspondence is testing)',
-                    'translate/gen.py generator Exn (exception parameters reused from C07)',
+                    'translate/gen.py generator Exn (exception parameters reused from C07); translate/g_thr.py generator Thr (regex over Thread.c, GC.c, Exception.c, Alloc.c, Start.c, Type.c, Cello.h)',
                     'pthread, libc, the scheduler (real concurrency is exercised, not modelled)')
     assumptions = ('no uncaught exception in any thread (Exception_Error exits the whole process: every exception program is wrapped in a catch-all)',
                    'thread-local keys of the user do not start with "__" (reserved: __GC, __Exception)',
@@ -254,16 +259,16 @@ class C13(Spec):
     def cases(self, rng, tier, boost=1):
         quick = tier == 'quick'
         cs = []
-        nsched = (60 if quick else 1200) * boost
+        nsched = (60 if quick else 400) * boost
         for i in range(nsched):
             nw = rng.choice([1, 2, 2, 3, 4, 6, 8])
             fl = rng.choice(['mixed', 'mixed', 'locks', 'gc', 'exn', 'work'])
-            cs.append(Case(f'sched{i}', gen_schedule(rng, nw, rng.choice([60, 150, 300]) if quick else rng.choice([100, 300, 800]), 'sched', fl)))
-        nfree = (60 if quick else 900) * boost
+            cs.append(Case(f'sched{i}', gen_schedule(rng, nw, rng.choice([60, 150, 300]) if quick else rng.choice([100, 300, 600]), 'sched', fl)))
+        nfree = (60 if quick else 250) * boost
         for i in range(nfree):
             nw = rng.choice([2, 3, 4, 6, 8, 12, 15] if quick else [2, 4, 8, 12, 15, 16])
             fl = rng.choice(['mixed', 'locks', 'locks', 'gc', 'exn', 'work', 'work'])
-            cs.append(Case(f'free{i}', gen_schedule(rng, nw, rng.choice([80, 200, 400]) if quick else rng.choice([200, 500, 1200]), 'free', fl)))
+            cs.append(Case(f'free{i}', gen_schedule(rng, nw, rng.choice([80, 200, 400]) if quick else rng.choice([200, 400, 800]), 'free', fl)))
         cs.append(Case('errmap', errmap_case()))
         return cs
     def nontrivial_items(self, case, c_out, m_out):
